@@ -4,7 +4,7 @@
    past the condition re-test, F7); its line-split regex and the include texts are REGENERATED from the tree on every
    run (Gen/Includes.v, Gen/Inc_*.v).  The tie of [diff_lines] to the script is the correspondence of harness/c20.py. *)
 From BS Require Import Model.Base Model.Regex Model.Script Model.Diff Model.Includes Gen.Unicode Gen.Includes
-  Proofs.C20 Proofs.C20inc.
+  Proofs.C20 Proofs.C20inc Proofs.C20lint Model.Lower Model.Lint.
 
 (* ---- line arrays: for ALL line lists, no size bound ---- *)
 
@@ -62,11 +62,19 @@ Print Assumptions C20_inputs_same_lines.
 
 (* ---- every shipped include parses (finite domain, enumerated completely: the files as they are now) ---- *)
 (* full clause: "parses, validates against the schema and is lint-clean".  Proved here with the MODEL parser: parses.
-   Schema validation and lint have no Gallina model in this development: those two are checked on the implementation
-   by the direct oracle of harness/c20.py (validate_script, lint_script == []) — hence _partial. *)
+   (kept: the earlier partial form; the full clause is C20_includes_valid_and_lint_clean below) *)
 Theorem C20_includes_parse_partial : forallb (fun nt => include_parses (snd nt)) gen_include_texts = true.
 Proof. exact includes_parse. Qed.
 Print Assumptions C20_includes_parse_partial.
+
+(* FULL clause: every shipped include parses, validates against the schema and is lint-clean.  The domain is the REGENERATED list
+   of include texts, enumerated completely; parse and lint are evaluated by the kernel's vm on the model parser and on the model
+   linter (Model/Lint.v, tied to lint_script by property C18's correspondence); schema validity of a parse result is the theorem
+   C07_schema.  A change to an include file, to the parser regexes or to the lint rules re-runs this computation. *)
+Theorem C20_includes_valid_and_lint_clean : forall name text, In (name, text) gen_include_texts ->
+  exists sc, parse_script [text] 1 = ROk sc /\ script_schema sc = true /\ lint sc = [].
+Proof. exact includes_valid_and_lint_clean. Qed.
+Print Assumptions C20_includes_valid_and_lint_clean.
 
 (* non-vacuity *)
 Example C20_nonvacuous_diff :
